@@ -364,3 +364,35 @@ Definition rm_check (G : gram) (ps : list prod) (w : list nat) : bool :=
   | Some f => str_eqb f (map Tm w)
   | None => false
   end.
+
+(** ** Checker for membership witnesses: a leftmost derivation given as its production sequence
+    (used for strings longer than the bound of the exhaustive oracle) *)
+
+Fixpoint split_first_nt (form : list sym) : option (list nat * nat * list sym) :=
+  match form with
+  | [] => None
+  | Nt A :: r => Some ([], A, r)
+  | Tm a :: r =>
+      match split_first_nt r with
+      | Some (pre, A, suf) => Some (a :: pre, A, suf)
+      | None => None
+      end
+  end.
+
+Fixpoint lm_replay (ps : list prod) (form : list sym) : option (list sym) :=
+  match ps with
+  | [] => Some form
+  | p :: r =>
+      match split_first_nt form with
+      | Some (pre, A, suf) =>
+          if Nat.eqb A (head p) then lm_replay r (map Tm pre ++ body p ++ suf) else None
+      | None => None
+      end
+  end.
+
+Definition lm_check (G : gram) (ps : list prod) (w : list nat) : bool :=
+  forallb (fun p => existsb (prod_eqb p) (prods G)) ps &&
+  match lm_replay ps [Nt (start G)] with
+  | Some f => str_eqb f (map Tm w)
+  | None => false
+  end.
